@@ -1,0 +1,99 @@
+//go:build verif
+
+package evm
+
+// Contracts for the deductive checker in /verif (comment-only; compiled only with -tags verif).
+// C07: CanTransferDecorator and EthMempoolFeeDecorator. Lib specs: /verif/specs/c07, c07d, c07t. Shares the keeper-interface
+// declarations of zz_contracts_c07_verif.go (evmk_params, evmk_chainid, evmk_basefee_nil / evmk_basefee_val).
+
+/*@
+alias Msgs []github.com/cosmos/cosmos-sdk/types.Msg
+alias EvmChainConfig github.com/haqq-network/haqq/x/evm/types.ChainConfig
+alias BigInt math/big.Int
+axiom pure_chaincfg_eth: forall cc EvmChainConfig :: forall id *BigInt :: chaincfg_eth(cc, id) != nil
+
+// ------------------------------------------------------------------ EthMempoolFeeDecorator
+// In CheckTx (not simulate) before London (no base fee), `next` runs only if every message is an Ethereum tx whose fee
+// (gas price x gas limit) is at least gas limit x the node's minimum gas price in the EVM denomination; a transaction with a
+// message below that is rejected with the unchanged context.
+func (EthMempoolFeeDecorator).AnteHandle
+    params mfd, c, t, sim, next
+    let p = evmk_params(mfd.evmKeeper, c)
+    let cfg = chaincfg_eth(p.ChainConfig, evmk_chainid(mfd.evmKeeper))
+    let london = !evmk_basefee_nil(mfd.evmKeeper, c, cfg)
+    let mgp = deccoins_amountof(ctx_mingasprices(c), p.EvmDenom)
+    let active = ctx_ischeck(c) && !sim && !london
+    let msgs = tx_msgs(t)
+    let n = len(tx_msgs(t))
+    requires nonnil: mfd.evmKeeper != nil && t != nil
+    // messages come from the tx decoder (non-nil pointers) and passed ValidateBasic in baseapp: the tx data unpacks and is well formed
+    requires wf: forall k int :: 0 <= k && k < n && typeis(msgs[k], "*MsgEthTx") ==> unbox(msgs[k], "*MsgEthTx") != nil
+             && unpack_ok(unbox(msgs[k], "*MsgEthTx").Data) && txd_wf(unpack_td(unbox(msgs[k], "*MsgEthTx").Data))
+    modifies bank_bal, bank_cache, fee_paid   // only through `next`, which is unknown code
+    call next requires same: tx == t && ctx == c && simulate == sim
+    call next requires floor: active ==> forall k int :: 0 <= k && k < n ==> typeis(msgs[k], "*MsgEthTx")
+             && dec_of(txd_feecap(unpack_td(unbox(msgs[k], "*MsgEthTx").Data)) * txd_gas(unpack_td(unbox(msgs[k], "*MsgEthTx").Data)))
+                >= mgp * txd_gas(unpack_td(unbox(msgs[k], "*MsgEthTx").Data))
+    // the rejection is raised only for a message whose fee really is below the floor (equality is accepted)
+    call Wrapf requires fee_reason: format == "insufficient fee; got: %s required: %s" ==>
+             dec_of(txd_feecap(unpack_td(ethMsg.Data)) * txd_gas(unpack_td(ethMsg.Data))) < mgp * txd_gas(unpack_td(ethMsg.Data))
+    call Wrapf use DecMulInt(mgp, txd_gas(unpack_td(ethMsg.Data)))
+    ensures rejected: active && (exists k int :: 0 <= k && k < n && !(typeis(msgs[k], "*MsgEthTx")
+             && dec_of(txd_feecap(unpack_td(unbox(msgs[k], "*MsgEthTx").Data)) * txd_gas(unpack_td(unbox(msgs[k], "*MsgEthTx").Data)))
+                >= mgp * txd_gas(unpack_td(unbox(msgs[k], "*MsgEthTx").Data)))) ==> err != nil && newCtx == c
+    loop 1 back use DecMulInt(mgp, txd_gas(unpack_td(ethMsg.Data)))
+    loop 1 exit use DecMulInt(mgp, txd_gas(unpack_td(ethMsg.Data)))
+    loop 1 invariant idx: 0 <= #i && #i <= n && active && minGasPrice == mgp
+    loop 1 invariant floor: forall k int :: 0 <= k && k < #i ==> typeis(msgs[k], "*MsgEthTx")
+             && dec_of(txd_feecap(unpack_td(unbox(msgs[k], "*MsgEthTx").Data)) * txd_gas(unpack_td(unbox(msgs[k], "*MsgEthTx").Data)))
+                >= mgp * txd_gas(unpack_td(unbox(msgs[k], "*MsgEthTx").Data))
+@*/
+
+/*@
+// ------------------------------------------------------------------ CanTransferDecorator
+alias SignerT github.com/ethereum/go-ethereum/core/types.Signer
+alias StateDBT github.com/haqq-network/haqq/x/evm/statedb.StateDB
+// the go-ethereum core message of Ethereum message object m for signer s and base fee (nil-ness, value)
+specfunc CoreMsg(m int, s SignerT, bfnil bool, bf int) int = asmsg(*unbox(m, "*MsgEthTx"), s, bfnil, bf)
+
+// `next` runs only if every message is an Ethereum tx that converts to a core message for the signer of this chain at this
+// height, whose fee cap is at least the base fee when London is active at this height (a missing base fee is then an error),
+// and whose sender - when the message transfers a positive value - has an EVM-denomination balance covering that value
+// (evm.Context.CanTransfer on a fresh state DB over this context). Anything else is rejected with the unchanged context.
+func (CanTransferDecorator).AnteHandle
+    params ctd, c, t, sim, next
+    let p = evmk_params(ctd.evmKeeper, c)
+    let cfg = chaincfg_eth(p.ChainConfig, evmk_chainid(ctd.evmKeeper))
+    let S = signer_at(cfg, ctx_height(c))
+    let bfnil = evmk_basefee_nil(ctd.evmKeeper, c, cfg)
+    let bf = ite(bfnil, 0, evmk_basefee_val(ctd.evmKeeper, c, cfg))
+    let londonH = evm_is_london(cfg, ctx_height(c))
+    let msgs = tx_msgs(t)
+    let n = len(tx_msgs(t))
+    requires nonnil: ctd.evmKeeper != nil && t != nil
+    requires ptrs: forall k int :: 0 <= k && k < n && typeis(msgs[k], "*MsgEthTx") ==> unbox(msgs[k], "*MsgEthTx") != nil
+    modifies bank_bal, bank_cache, fee_paid   // only through `next`, which is unknown code
+    // evm.Context.CanTransfer is go-ethereum's core.CanTransfer (wired by x/evm/keeper NewEVM): assumed
+    call CanTransfer contract github.com/ethereum/go-ethereum/core.CanTransfer
+    call CanTransfer requires view: isdyn(db, *StateDBT) && sdb_ctx(dyn(db, *StateDBT)) == c && sdb_keeper(dyn(db, *StateDBT)) == ctd.evmKeeper
+    call next requires same: tx == t && ctx == c && simulate == sim
+    call next requires eth: forall k int :: 0 <= k && k < n ==> typeis(msgs[k], "*MsgEthTx") && asmsg_ok(*unbox(msgs[k], "*MsgEthTx"), S, bfnil, bf)
+    call next requires feecap: londonH ==> (n > 0 ==> !bfnil) && forall k int :: 0 <= k && k < n ==> cm_feecap(CoreMsg(msgs[k], S, bfnil, bf)) >= bf
+    call next requires covered: forall k int :: 0 <= k && k < n && cm_value(CoreMsg(msgs[k], S, bfnil, bf)) > 0 ==>
+             evm_balance(ctd.evmKeeper, c, msg_from(CoreMsg(msgs[k], S, bfnil, bf))) >= cm_value(CoreMsg(msgs[k], S, bfnil, bf))
+    // the two policy rejections are raised only when their condition really holds (equality is accepted)
+    call Wrapf requires feecap_reason: format == "max fee per gas less than block base fee (%s < %s)" ==> !bfnil && cm_feecap(coreMsg) < bf
+    call Wrapf requires funds_reason: format == "failed to transfer %s from address %s using the EVM block context transfer function" ==>
+             cm_value(coreMsg) > 0 && evm_balance(ctd.evmKeeper, c, msg_from(coreMsg)) < cm_value(coreMsg)
+    ensures rejected_type: (exists k int :: 0 <= k && k < n && !(typeis(msgs[k], "*MsgEthTx") && asmsg_ok(*unbox(msgs[k], "*MsgEthTx"), S, bfnil, bf))) ==> result.1 != nil && result.0 == c
+    ensures rejected_nobasefee: n > 0 && londonH && bfnil ==> result.1 != nil && result.0 == c
+    ensures rejected_feecap: londonH && (exists k int :: 0 <= k && k < n && typeis(msgs[k], "*MsgEthTx") && cm_feecap(CoreMsg(msgs[k], S, bfnil, bf)) < bf) ==> result.1 != nil && result.0 == c
+    ensures rejected_funds: (exists k int :: 0 <= k && k < n && typeis(msgs[k], "*MsgEthTx") && cm_value(CoreMsg(msgs[k], S, bfnil, bf)) > 0
+             && evm_balance(ctd.evmKeeper, c, msg_from(CoreMsg(msgs[k], S, bfnil, bf))) < cm_value(CoreMsg(msgs[k], S, bfnil, bf))) ==> result.1 != nil && result.0 == c
+    loop 1 invariant idx: 0 <= #i && #i <= n && signer == S && ethCfg == cfg
+    loop 1 invariant eth: forall k int :: 0 <= k && k < #i ==> typeis(msgs[k], "*MsgEthTx") && asmsg_ok(*unbox(msgs[k], "*MsgEthTx"), S, bfnil, bf)
+    loop 1 invariant feecap: londonH && #i > 0 ==> !bfnil
+    loop 1 invariant feecap2: londonH ==> forall k int :: 0 <= k && k < #i ==> cm_feecap(CoreMsg(msgs[k], S, bfnil, bf)) >= bf
+    loop 1 invariant covered: forall k int :: 0 <= k && k < #i && cm_value(CoreMsg(msgs[k], S, bfnil, bf)) > 0 ==>
+             evm_balance(ctd.evmKeeper, c, msg_from(CoreMsg(msgs[k], S, bfnil, bf))) >= cm_value(CoreMsg(msgs[k], S, bfnil, bf))
+@*/
